@@ -164,4 +164,218 @@ theorem upper_bits_upper {p : Nat} (hp61 : p ≤ 61) (wn hi5 lo5 lo hi N Dn : Na
     · exact hup 1 h hroom1
     · exact hup B h (hroomB hm)
 
+/-! ## the round-to-even test on the rows rounded up -/
+
+/-- an exact tie shows as `lo = 0` with zero dropped bits -/
+theorem tie_pattern_of_exact (hi lo sh N Dz : Nat) (hDz : 0 < Dz)
+    (hquot : N / (2 ^ sh * 2 ^ 64 * Dz) = hi / 2 ^ sh) (hgt : (hi * 2 ^ 64 + lo) * Dz < N + Dz)
+    (hmod : N % (2 ^ sh * 2 ^ 64 * Dz) = 0) : lo = 0 ∧ hi % 2 ^ sh = 0 := by
+  have hdmN := Nat.div_add_mod N (2 ^ sh * 2 ^ 64 * Dz)
+  rw [hmod, Nat.add_zero, hquot] at hdmN
+  have hdm := Nat.div_add_mod hi (2 ^ sh)
+  have hB := Nat.two_pow_pos 64
+  generalize 2 ^ sh = A at *
+  generalize hi / A = m0 at *
+  generalize hi % A = r at *
+  generalize 2 ^ 64 = B at *
+  have e1 : (hi * B + lo) * Dz = A * B * Dz * m0 + (r * B + lo) * Dz := by rw [← hdm]; ring
+  have h1 : (r * B + lo) * Dz < 1 * Dz := by
+    rw [Nat.one_mul]
+    rw [e1, hdmN] at hgt
+    generalize (r * B + lo) * Dz = V at *
+    omega
+  have h2 : r * B + lo < 1 := Nat.lt_of_mul_lt_mul_right h1
+  have h3 : r * B = 0 := by omega
+  refine ⟨by omega, ?_⟩
+  rcases Nat.mul_eq_zero.mp h3 with h | h
+  · exact h
+  · omega
+
+/-- after the second multiplication the pattern `lo ≤ 1`, zero dropped bits, is an exact tie -/
+theorem exact_of_tie_pattern (hi lo sh N X Dn : Nat) (hsh : 1 ≤ sh) (hDn : 0 < Dn) (hDn63 : Dn < 2 ^ 63)
+    (hlo1 : lo ≤ 1) (hr0 : hi % 2 ^ sh = 0) (hX : X < (hi * 2 ^ 64 + lo + 1) * 2 ^ 64) (hNlt : N < X * Dn)
+    (hgt : (hi * 2 ^ 64 + lo) * (2 ^ 64 * Dn) < N + 2 ^ 64 * Dn) (hdiv : 2 ^ 129 ∣ N) :
+    N % (2 ^ sh * 2 ^ 64 * (2 ^ 64 * Dn)) = 0 := by
+  obtain ⟨m0, rfl⟩ : ∃ m0, hi = 2 ^ sh * m0 := Nat.dvd_of_mod_eq_zero hr0
+  have hB := Nat.two_pow_pos 64
+  have hsmall : 2 * (2 ^ 64 * Dn) ≤ 2 ^ 129 := by
+    have h3 : 2 ^ 64 * Dn ≤ 2 ^ 64 * 2 ^ 63 := Nat.mul_le_mul_left _ (Nat.le_of_lt hDn63)
+    have h4 : (2 : Nat) ^ 64 * 2 ^ 63 = 2 ^ 127 := by rw [← Nat.pow_add]
+    have h5 : 2 * (2 : Nat) ^ 127 ≤ 2 ^ 129 := by
+      rw [← Nat.pow_succ']; exact Nat.pow_le_pow_right (by decide) (by decide)
+    omega
+  have hdvdA : 2 ^ 129 ∣ m0 * (2 ^ sh * 2 ^ 64 * (2 ^ 64 * Dn)) := by
+    obtain ⟨s', rfl⟩ : ∃ s', sh = s' + 1 := ⟨sh - 1, by omega⟩
+    exact ⟨m0 * 2 ^ s' * Dn, by
+      rw [show (2 : Nat) ^ 129 = 2 * 2 ^ 64 * 2 ^ 64 by
+        rw [← Nat.pow_succ', ← Nat.pow_add], Nat.pow_succ]; ring⟩
+  have hup : N < m0 * (2 ^ sh * 2 ^ 64 * (2 ^ 64 * Dn)) + 2 * (2 ^ 64 * Dn) := by
+    calc N < X * Dn := hNlt
+      _ ≤ ((2 ^ sh * m0 * 2 ^ 64 + lo + 1) * 2 ^ 64) * Dn := Nat.mul_le_mul_right _ (Nat.le_of_lt hX)
+      _ = (2 ^ sh * m0 * 2 ^ 64 + lo + 1) * (2 ^ 64 * Dn) := by ring
+      _ ≤ (2 ^ sh * m0 * 2 ^ 64 + 2) * (2 ^ 64 * Dn) := Nat.mul_le_mul_right _ (by omega)
+      _ = m0 * (2 ^ sh * 2 ^ 64 * (2 ^ 64 * Dn)) + 2 * (2 ^ 64 * Dn) := by ring
+  have hlow : m0 * (2 ^ sh * 2 ^ 64 * (2 ^ 64 * Dn)) < N + 2 ^ 64 * Dn := by
+    calc m0 * (2 ^ sh * 2 ^ 64 * (2 ^ 64 * Dn)) = (2 ^ sh * m0 * 2 ^ 64) * (2 ^ 64 * Dn) := by ring
+      _ ≤ (2 ^ sh * m0 * 2 ^ 64 + lo) * (2 ^ 64 * Dn) := Nat.mul_le_mul_right _ (Nat.le_add_right _ _)
+      _ < N + 2 ^ 64 * Dn := hgt
+  obtain ⟨n', hn'⟩ := hdiv
+  obtain ⟨t', ht'⟩ := hdvdA
+  have hup' : 2 ^ 129 * n' < 2 ^ 129 * t' + 2 * (2 ^ 64 * Dn) := by rw [← hn', ← ht']; exact hup
+  have hlow' : 2 ^ 129 * t' < 2 ^ 129 * n' + 2 ^ 64 * Dn := by rw [← hn', ← ht']; exact hlow
+  have hnt : n' = t' := by
+    generalize 2 ^ 129 = G at hup' hlow' hsmall
+    generalize 2 ^ 64 * Dn = W at hup' hlow' hsmall
+    rcases Nat.lt_trichotomy n' t' with h | h | h
+    · have := Nat.mul_le_mul_left G (show n' + 1 ≤ t' from h)
+      rw [Nat.mul_add, Nat.mul_one] at this
+      generalize G * n' = U at *
+      generalize G * t' = V at *
+      omega
+    · exact h
+    · have := Nat.mul_le_mul_left G (show t' + 1 ≤ n' from h)
+      rw [Nat.mul_add, Nat.mul_one] at this
+      generalize G * n' = U at *
+      generalize G * t' = V at *
+      omega
+  have hNT : N = m0 * (2 ^ sh * 2 ^ 64 * (2 ^ 64 * Dn)) := by rw [ht', hn', hnt]
+  rw [hNT]
+  exact Nat.mul_mod_left _ _
+
+/-- a number not divisible by `2^k` is `2^v·odd` with `v < k` -/
+theorem odd_part_of (k : Nat) : ∀ n, n % 2 ^ k ≠ 0 → ∃ v h, v < k ∧ n = 2 ^ v * h ∧ h % 2 = 1 := by
+  induction k with
+  | zero => intro n h; simp [Nat.mod_one] at h
+  | succ k ih =>
+    intro n h
+    by_cases hodd : n % 2 = 1
+    · exact ⟨0, n, by omega, by simp, hodd⟩
+    · have hev : n % 2 = 0 := by omega
+      have hn : n = 2 * (n / 2) := by omega
+      have : n / 2 % 2 ^ k ≠ 0 := by
+        intro hc
+        apply h
+        rw [hn, Nat.pow_succ', Nat.mul_mod_mul_left, hc]
+      obtain ⟨v, h', hv, e, ho⟩ := ih (n / 2) this
+      exact ⟨v + 1, h', by omega, by rw [hn, e, Nat.pow_succ]; ring, ho⟩
+
+/-- `wn·a ≡ 0 (mod 2^(64+sh))` has no solution `0 < wn < 2^64` when `a` has at most `sh` trailing zeros -/
+theorem no_zero_residue (a sh wn : Nat) (ha : a % 2 ^ (sh + 1) ≠ 0) (hwn0 : 0 < wn) (hwn : wn < 2 ^ 64) :
+    wn * a % 2 ^ (64 + sh) ≠ 0 := by
+  intro h
+  obtain ⟨v, h', hv, e, ho⟩ := odd_part_of (sh + 1) a ha
+  have hdvd : 2 ^ (64 + sh) ∣ wn * a := Nat.dvd_of_mod_eq_zero h
+  have hsplit : 2 ^ (64 + sh) = 2 ^ v * 2 ^ (64 + sh - v) := by
+    rw [← Nat.pow_add]; refine two_pow_congr ?_; omega
+  rw [hsplit, e, show wn * (2 ^ v * h') = 2 ^ v * (wn * h') by ring] at hdvd
+  have h2 : 2 ^ (64 + sh - v) ∣ wn * h' := Nat.dvd_of_mul_dvd_mul_left (Nat.two_pow_pos v) hdvd
+  have hc2 : Nat.Coprime 2 h' := by
+    unfold Nat.Coprime; rw [Nat.gcd_rec, ho]; rfl
+  have hcop : Nat.Coprime (2 ^ (64 + sh - v)) h' := Nat.Coprime.pow_left _ hc2
+  have h3 : 2 ^ (64 + sh - v) ∣ wn := hcop.dvd_of_dvd_mul_right h2
+  have h4 : 2 ^ (64 + sh - v) ≤ wn := Nat.le_of_dvd hwn0 h3
+  have h5 : 2 ^ 64 ≤ 2 ^ (64 + sh - v) := Nat.pow_le_pow_right (by decide) (by omega)
+  omega
+
+theorem no_one_residue_even (a k wn : Nat) (ha : a % 2 = 0) (hk : 1 ≤ k) : wn * a % 2 ^ k ≠ 1 := by
+  intro h
+  have hdvd : 2 ∣ 2 ^ k := by
+    obtain ⟨k', rfl⟩ : ∃ k', k = k' + 1 := ⟨k - 1, by omega⟩
+    exact ⟨2 ^ k', by rw [Nat.pow_succ']⟩
+  have h1 : wn * a % 2 ^ k % 2 = wn * a % 2 := Nat.mod_mod_of_dvd _ hdvd
+  have h2 : wn * a % 2 = 0 := by rw [Nat.mul_mod, ha, Nat.mul_zero]
+  omega
+
+theorem no_one_residue_odd (a G x wn : Nat) (hx : a * x % G = 1) (hwn : wn < G) (hne : wn ≠ x % G) :
+    wn * a % G ≠ 1 := by
+  intro h
+  apply hne
+  have : wn % G = x % G := by
+    calc wn % G = (wn * (a * x % G)) % G := by rw [hx, Nat.mul_one]
+      _ = (wn * (a * x)) % G := Nat.mul_mod_mod _ _ _
+      _ = ((wn * a) * x) % G := by rw [Nat.mul_assoc]
+      _ = ((wn * a) % G * x) % G := (Nat.mod_mul_mod _ _ _).symm
+      _ = x % G := by rw [h, Nat.one_mul]
+  rw [← this, Nat.mod_eq_of_lt hwn]
+
+/-- `2`-adic inverse of an odd `a` modulo `2^128` by Newton iteration (only used as a certificate: the check
+`a·x ≡ 1` is evaluated) -/
+def inv2 (a : Nat) : Nat :=
+  (List.range 7).foldl (fun x _ => x * (2 ^ 128 + 2 - a * x % 2 ^ 128) % 2 ^ 128) 1
+
+/-- the inverse certificate for modulus `2^(64+sh)`: the only residue `wn` with `wn·a ≡ 1` is not a normalised `u64` -/
+def invOutside (a sh : Nat) : Bool :=
+  (a * inv2 a % 2 ^ (64 + sh) == 1) &&
+  (decide (inv2 a % 2 ^ (64 + sh) < 2 ^ 63) || decide (2 ^ 64 ≤ inv2 a % 2 ^ (64 + sh)))
+
+/-- **per-row tie check** (`1 ≤ e ≤` the round-to-even window): without the second multiplication the first product
+`wn·hi5` cannot look like a tie — `wn·hi5 ≡ 0, 1 (mod 2^(64+sh))`, `sh ∈ {62 − p, 63 − p}`, has no normalised solution:
+`hi5` has at most `62 − p` trailing zeros, and it is even or its inverse lies outside `[2^63, 2^64)`. -/
+def tieRowOk (p e : Nat) : Bool :=
+  match Gen.Lemire.powerOfFive128[342 - e]? with
+  | some (hi5, _) =>
+    decide (hi5 % 2 ^ (63 - p) ≠ 0) &&
+    (decide (hi5 % 2 = 0) || (invOutside hi5 (62 - p) && invOutside hi5 (63 - p)))
+  | none => false
+
+theorem tieRows_f64 : ∀ e, 1 ≤ e → e ≤ 4 → tieRowOk 53 e = true := by decide +kernel
+theorem tieRows_f32 : ∀ e, 1 ≤ e → e ≤ 17 → tieRowOk 24 e = true := by decide +kernel
+
+theorem no_spurious_tie {p e : Nat} (hok : tieRowOk p e = true) (hp61 : p ≤ 61) {hi5 lo5 : Nat}
+    (hrow : Gen.Lemire.powerOfFive128[342 - e]? = some (hi5, lo5)) (sh : Nat) (hsh : sh = 62 - p ∨ sh = 63 - p)
+    (wn : Nat) (hwn1 : 2 ^ 63 ≤ wn) (hwn2 : wn < 2 ^ 64) : 2 ≤ wn * hi5 % 2 ^ (64 + sh) := by
+  unfold tieRowOk at hok
+  rw [hrow] at hok
+  simp only [Bool.and_eq_true, Bool.or_eq_true, decide_eq_true_eq] at hok
+  obtain ⟨htz, hcase⟩ := hok
+  have hwn0 : 0 < wn := by have := Nat.two_pow_pos 63; omega
+  have hne0 : wn * hi5 % 2 ^ (64 + sh) ≠ 0 := by
+    apply no_zero_residue hi5 sh wn ?_ hwn0 hwn2
+    intro hc
+    apply htz
+    have hdvd : 2 ^ (63 - p) ∣ 2 ^ (sh + 1) := Nat.pow_dvd_pow 2 (by omega)
+    rw [← Nat.mod_mod_of_dvd hi5 hdvd, hc, Nat.zero_mod]
+  have hne1 : wn * hi5 % 2 ^ (64 + sh) ≠ 1 := by
+    rcases hcase with hev | ⟨h1, h2⟩
+    · exact no_one_residue_even hi5 (64 + sh) wn hev (by omega)
+    · have hio : invOutside hi5 sh = true := by
+        rcases hsh with h | h
+        · rw [h]; exact h1
+        · rw [h]; exact h2
+      clear h1 h2
+      unfold invOutside at hio
+      generalize inv2 hi5 = x at hio
+      simp only [Bool.and_eq_true, Bool.or_eq_true, beq_iff_eq, decide_eq_true_eq] at hio
+      obtain ⟨hx, hout⟩ := hio
+      apply no_one_residue_odd hi5 (2 ^ (64 + sh)) x wn hx
+      · calc wn < 2 ^ 64 := hwn2
+          _ ≤ 2 ^ (64 + sh) := Nat.pow_le_pow_right (by decide) (by omega)
+      · omega
+  omega
+
+/-- an exact tie forces `5^e·m0 ≤ wn` for the odd quotient `m0` -/
+theorem window_of_tie (e wn s m0 t : Nat) (hm0 : m0 % 2 = 1) (hwn0 : 0 < wn)
+    (h : wn * 2 ^ s = m0 * (2 ^ t * 5 ^ e)) : 5 ^ e * m0 ≤ wn := by
+  have h5pos : 0 < 5 ^ e := Nat.pow_pos (by decide)
+  have hcop : Nat.Coprime (5 ^ e) (2 ^ s) := Nat.Coprime.pow e s (by decide)
+  have hdvd : 5 ^ e ∣ wn * 2 ^ s := ⟨m0 * 2 ^ t, by rw [h]; ring⟩
+  obtain ⟨j, hj⟩ := hcop.dvd_of_dvd_mul_right hdvd
+  have hj0 : 0 < j := by
+    rcases Nat.eq_zero_or_pos j with h0 | h0
+    · rw [h0, Nat.mul_zero] at hj; omega
+    · exact h0
+  have h2 : 5 ^ e * (j * 2 ^ s) = 5 ^ e * (m0 * 2 ^ t) := by
+    calc 5 ^ e * (j * 2 ^ s) = (5 ^ e * j) * 2 ^ s := by ring
+      _ = wn * 2 ^ s := by rw [hj]
+      _ = m0 * (2 ^ t * 5 ^ e) := h
+      _ = 5 ^ e * (m0 * 2 ^ t) := by ring
+  have h3 : j * 2 ^ s = m0 * 2 ^ t := Nat.eq_of_mul_eq_mul_left h5pos h2
+  have hc2 : Nat.Coprime m0 2 := by
+    unfold Nat.Coprime; rw [Nat.gcd_comm, Nat.gcd_rec, hm0]; rfl
+  have hcm : Nat.Coprime m0 (2 ^ s) := Nat.Coprime.pow_right _ hc2
+  have hd2 : m0 ∣ j * 2 ^ s := ⟨2 ^ t, h3⟩
+  have h4 : m0 ≤ j := Nat.le_of_dvd hj0 (hcm.dvd_of_dvd_mul_right hd2)
+  rw [hj]
+  exact Nat.mul_le_mul_left _ h4
+
 end LexVerif.Proof.Lemire
